@@ -703,6 +703,24 @@ class BuiltinMixin:
             return [(st, st.alloc(HList(items=[VTuple(t) for t in zip(*lists)])))]
         raise Unsupported("zip over symbolic iterables")
 
+    def b_itertools_chain(self, st, args, kwargs):
+        """chain(a, b, ...): the items of a, then of b ... (concrete spines: an iterator over
+        their concatenation; otherwise the concatenated symbolic sequence)"""
+        spines = [self.concrete_items(st, a) for a in args]
+        if all(sp is not None for sp in spines):
+            return [(st, st.alloc(HCIter([x for sp in spines for x in sp])))]
+        seqs = []
+        for a, sp in zip(args, spines):
+            if sp is not None:
+                seqs.extend(z3.Unit(box(x)) for x in sp)
+            else:
+                sq = self.as_seq(st, a)
+                if sq is None:
+                    raise Unsupported("itertools.chain over a non-sequence")
+                seqs.append(sq)
+        whole = seqs[0] if len(seqs) == 1 else z3.Concat(*seqs)
+        return [(st, st.alloc(HIter(whole, z3.IntVal(0))))]
+
     def b_itertools_zip_longest(self, st, args, kwargs):
         lists = [self.concrete_items(st, a) for a in args]
         if any(x is None for x in lists):
@@ -1057,6 +1075,30 @@ class BuiltinMixin:
             for _s, r in self.py_eq(st, x, args[0]):
                 acc = acc + z3.If(r, 1, 0)
         return [(st, VInt(acc))]
+
+    def m_HList_index(self, st, ref, args, kwargs):
+        """list.index(x): position of the first item equal (Python ==) to x, ValueError if none"""
+        h = st.deref(ref)
+        if h.items is None or len(args) != 1:
+            raise Unsupported("index on a symbolic list / with bounds")
+        out = []
+        pending = [st]
+        for i, x in enumerate(list(h.items)):
+            nxt = []
+            for s in pending:
+                for s2, r in self.py_eq(s, x, args[0]):
+                    if isinstance(r, Raised):
+                        out.append((s2, r))
+                        continue
+                    for s3, eq in self.branch(s2, r):
+                        if eq:
+                            out.append((s3, VInt(z3.IntVal(i))))
+                        else:
+                            nxt.append(s3)
+            pending = nxt
+        for s in pending:
+            out.append(self.raised(s, "ValueError", "x is not in list"))
+        return out
 
     # ------------------------------------------------------------ dict methods
 
